@@ -47,7 +47,8 @@ def run(sc):
     from aiosmpplib.state import BindMode
     from aiosmpplib.protocol import SubmitSm
     rng = random.Random(sc['seed'])
-    s = Sim(enquire_link_interval=rng.choice((3.0, 7.0)), socket_timeout=2.0, bind_mode=getattr(BindMode, sc['mode']))
+    s = Sim(task_order=(1, 7)[sc['seed'] % 2], enquire_link_interval=rng.choice((3.0, 7.0)), socket_timeout=2.0,
+            bind_mode=getattr(BindMode, sc['mode']))
     try:
         if sc['hook'] in ('sending', 'both', 'long'):
             for i in range(200):
